@@ -193,6 +193,8 @@ func GenTLS(rng *rand.Rand, thorough bool, emit func(*Sx)) {
 // AllowInsecureAuth x backend {auth-capable, not} x {SMTP, LMTP} = 3072
 // configurations; for each: the EHLO/LHLO reply, the HELO reply, and a probe of
 // every extension's command or parameter.
+var c12n int
+
 func GenC12(rng *rand.Rand, thorough bool, emit func(*Sx)) {
 	idx := 0
 	for bits := 0; bits < 1<<5; bits++ {
@@ -223,6 +225,20 @@ func GenC12(rng *rand.Rand, thorough bool, emit func(*Sx)) {
 								tls := cfg.ImplicitTLS
 								f := newF(cfg)
 								f.hello()
+								// every third configuration: a greeting that is REFUSED follows the accepted one - it
+								// changes nothing about what was advertised and is honoured
+								c12n++
+								switch {
+								case c12n%3 != 0:
+								case lmtp && c12n%2 == 0:
+									f.cmd("HELO client.example", 500)
+								case lmtp:
+									f.cmd("LHLO", 501)
+								case c12n%2 == 0:
+									f.cmd("HELO", 501)
+								default:
+									f.cmd("EHLO", 501)
+								}
 								caps := []string{"PIPELINING", "8BITMIME", "ENHANCEDSTATUSCODES", "CHUNKING"}
 								if cfg.TLSConfig && !tls {
 									caps = append(caps, "STARTTLS")
